@@ -95,7 +95,50 @@ def main(argv):
     known = load_known()
     violations, known_hits, broken, undecided = [], [], [], []
     from . import replay
-    transported = {}
+    # ---- counterexample transport: one representative per (entry point, failing check) class, in parallel
+    failing = [s for s in specs if s.expect != "fail" and results[s.name]["status"] == "fail"]
+    classes = {}
+    for s in failing:
+        r = results[s.name]
+        fc = (r.get("failed_checks") or [{}])[0]
+        cls = (s.shape.get("entry") or s.shape.get("codec") or s.shape.get("contract") or s.fn, fc.get("fn"), fc.get("line"), fc.get("desc"))
+        classes.setdefault(cls, []).append(s)
+    max_classes = int(os.environ.get("VERIF_MAX_TRANSPORT", "8"))
+    reps = {}
+    todo = []
+    for n, (cls, members) in enumerate(sorted(classes.items(), key=lambda kv: str(kv[0]))):
+        # cheapest member first: short playback
+        members.sort(key=lambda s: results[s.name].get("duration_ms") or 0)
+        if n < max_classes and not a.no_transport:
+            todo.append((cls, members[0]))
+    if todo:
+        import concurrent.futures, shutil as _sh
+        def work(item):
+            cls, s1 = item
+            # own workspace copy so that inplace playback edits and builds do not collide
+            wsx = os.path.join(VERIF, "work", pid, "pb_" + s1.name)
+            subprocess.run(["rsync", "-a", "--delete", "--exclude", "target", ws + "/", wsx + "/"], check=True)
+            try:
+                tr = replay.transport(pid, s1, results[s1.name], wsx)
+            except Exception as e:  # noqa
+                tr = dict(reproduced=None, reason="transport crashed: %r" % (e,))
+            tr["harness"] = s1.name
+            _sh.rmtree(wsx, ignore_errors=True)
+            return cls, tr
+        with concurrent.futures.ThreadPoolExecutor(max_workers=min(4, len(todo))) as ex:
+            for cls, tr in ex.map(work, todo):
+                reps[cls] = tr
+    for cls, members in classes.items():
+        for s in members:
+            if cls in reps:
+                tr = dict(reps[cls])
+                if tr.get("harness") != s.name:
+                    tr["same_class_as"] = tr.get("harness")
+            elif a.no_transport:
+                tr = dict(reproduced=None, reason="--no-transport")
+            else:
+                tr = dict(reproduced=None, reason="more than %d distinct failure classes; not transported" % max_classes)
+            results[s.name]["transport"] = tr
     for s in specs:
         r = results[s.name]
         st = r["status"]
@@ -112,19 +155,7 @@ def main(argv):
         if st == "pass":
             r["verdict"] = "holds-within-bound"
         elif st == "fail":
-            fc = (r.get("failed_checks") or [{}])[0]
-            cls = (s.shape.get("entry") or s.shape.get("codec") or s.fn, fc.get("fn"), fc.get("line"), fc.get("desc"))
-            if cls in transported and len(transported[cls]) >= 2:
-                # same entry point and same failing check as two counterexamples already replayed
-                tr = dict(transported[cls][0])
-                tr["same_class_as"] = transported[cls][0].get("harness")
-            elif a.no_transport:
-                tr = dict(reproduced=None, reason="--no-transport")
-            else:
-                tr = replay.transport(pid, s, r, ws)
-                tr["harness"] = s.name
-                transported.setdefault(cls, []).append(tr)
-            r["transport"] = tr
+            tr = r["transport"]
             if tr.get("reproduced") is True:
                 k = replay.match_known(known, pid, tr)
                 if k is not None:
@@ -134,7 +165,7 @@ def main(argv):
                     violations.append((s, r))
                     r["verdict"] = "VIOLATION"
             elif tr.get("reproduced") is False:
-                r["verdict"] = "BROKEN: counterexample does not reproduce on the real build (model/harness error)"
+                r["verdict"] = "BROKEN: counterexample does not reproduce on the real build (model/harness error): %s" % tr.get("detail")
                 broken.append((s, r))
             else:
                 r["verdict"] = "BROKEN: counterexample could not be transported: %s" % tr.get("reason")
